@@ -1,17 +1,20 @@
 #!/bin/sh
 # tools/seedtest.sh <seed-dir> <PROP> [tier]
-# Apply a seeded change to /repo, run the property's check, undo the change.
+# Apply a seeded change to /repo (or to the copy named by VERIF_REPO, e.g. the snapshot of a `vp run
+# --with-repo`), run the property's check from the tree this script sits in, undo the change.
 # Prints DETECTED / MISSED.  The change is never committed.
 set -u
 SD=$1; P=$2; TIER=${3:-quick}
-cd /repo || exit 2
-if ! git diff --quiet; then echo "seedtest: /repo has uncommitted changes"; exit 2; fi
+V=$(cd "$(dirname "$0")/.." && pwd)
+REPO=${VERIF_REPO:-/repo}
+cd "$REPO" || exit 2
+if ! git diff --quiet; then echo "seedtest: $REPO has uncommitted changes"; exit 2; fi
 git apply "$SD/patch.diff" || { echo "seedtest: patch does not apply"; exit 2; }
-cd /verif
+cd "$V"
 cp -f evidence/$P.json /tmp/seedtest.$$.ev 2>/dev/null
 VERIF_SEED=${VERIF_SEED:-1} ./check "$P" --tier "$TIER" > /tmp/seedtest.$$.out 2>/tmp/seedtest.$$.err
 rc=$?
-git -C /repo checkout -- .
+git -C "$REPO" checkout -- .
 [ -f /tmp/seedtest.$$.ev ] && mv -f /tmp/seedtest.$$.ev evidence/$P.json
 grep -h "VIOLATION\|KNOWN-FINDING\|^OK" /tmp/seedtest.$$.out
 if [ $rc -ne 0 ] && grep -q "^VIOLATION" /tmp/seedtest.$$.out; then echo "DETECTED $SD by $P ($TIER)"; else echo "MISSED $SD by $P ($TIER)"; fi
